@@ -133,6 +133,10 @@ func verifyFunc(P *Prog, fn *ssa.Function, fc *FuncContract) (rep *FnReport) {
 			st.entryHeap = st.snapshotHeap()
 		}
 	}
+	// vacuity guard: the entry assumptions (type invariants, global invariants,
+	// requires) must be satisfiable
+	fx.obls = append(fx.obls, &Obligation{Name: shortFn(fn) + "#vacuity:requires-satisfiable", Kind: "vacuity", Fn: shortFn(fn),
+		Assumes: append([]Term(nil), st.pc...), Goal: "false", Invert: true})
 	fr.ret = func(st *State, results []Term) { fx.finish(st, fr, results) }
 	fx.execBlock(st, fr, fn.Blocks[0], nil)
 	return rep
@@ -486,6 +490,17 @@ func solveReport(rep *FnReport, opts solveOpts) {
 			sem <- struct{}{}
 			defer func() { <-sem }()
 			r := Solve(q, opts.timeout, false)
+			if o.Invert {
+				// satisfiable or unknown: fine; unsat: the assumptions are contradictory
+				if r.Status == "unsat" {
+					r.Status = "sat"
+					r.Model = "assumptions are contradictory (vacuous contract)"
+				} else {
+					r.Status = "unsat"
+				}
+				o.Result = r
+				return
+			}
 			if r.Status == "sat" && opts.models {
 				r2 := Solve(q, opts.timeout, true)
 				if r2.Status == "sat" {
